@@ -1,5 +1,5 @@
 SPECIFICATION Spec
-CONSTANTS MaxLen = 6  Delays = {100, 700}
+CONSTANTS MaxLen = 6  Delays = {0, 100, 700}
 INVARIANTS EnvelopeMonotone CountBounded
 PROPERTIES ResetOnSuccess GrowsOnFailure
 CHECK_DEADLOCK FALSE
